@@ -98,14 +98,26 @@ def run(rep, tier, seed):
     n_hist = 150 if tier == "quick" else 12000
     n_models = 300 if tier == "quick" else 20000
     rep.rule = (
-        "%d expressions forced through constructs that push temporary contexts (context literals, filters, for/some/every, invocations, unary tests) plus a quarter as many filters over lists whose context elements carry entries named `item`, like variables in use or like names of the caller's scope, each parsed and evaluated 3x in scopes of 1-4 layers with the "
+        "%d expressions forced through constructs that push temporary contexts (context literals, filters, for/some/every, invocations, unary tests) plus a quarter as many filters over lists whose context elements carry entries named `item`, like variables in use or like names of the caller's scope, and the repository's own test and model expressions (unmutated), each parsed and evaluated 3x in scopes of 1-4 layers with the "
         "scope rendered before/after; %d histories of 200-2000 steps over 8 prepared evaluators x 4 long-lived scopes; successful parses through all six entry points; %d generated DMN models (boxed contexts, "
-        "invocations, BKMs, services, tables) with every (invocable, input) pair called 3x interleaved in random order and once more on an evaluator built for that call alone; decision tables recognised from drawings evaluated twice over a caller's scope that holds more than their inputs. Distinct = (text | history | model call); non-trivial = evaluation produced a non-null value." % (n_expr, n_hist, n_models)
+        "invocations, BKMs, services, tables) with every (invocable, input) pair called 3x interleaved in random order and once more on an evaluator built for that call alone; the repository's own example models (every invocable, three input contexts, each call repeated in random order and once alone); decision tables recognised from drawings evaluated twice over a caller's scope that holds more than their inputs. Distinct = (text | history | model call); non-trivial = evaluation produced a non-null value." % (n_expr, n_hist, n_models)
     )
     rep.assumptions = ["the scope's textual rendering (Display of the stack of contexts) is a faithful witness of its contents", "values depending on the current date (times of day in named zones) are not generated"]
     rng = rng_for(seed, "c13")
     # ---- 1. expressions: snapshot monitor -------------------------------------------------
     texts = gen_texts(rng, n_expr) + special_texts(rng, n_expr // 4)
+    # the repository's own expressions (string literals of its FEEL tests, <text> of its models), unmutated: every
+    # built-in and construct the authors exercised, here under the scope and repeatability monitors. Texts that read the
+    # clock or iterate beyond the property's bound are left out.
+    import re as _re
+    from props import c05 as _c05
+
+    _skip = _re.compile(r"\b(now|today)\s*\(|\d{4,}[\s)]*\.\.|\.\.[\s(-]*\d{4,}|\d\s*\*\*\s*\d{3,}")
+    own = [t for t in _c05.harvest() if not _skip.search(t) and len(t) < 600 and "\x00" not in t]
+    rng.shuffle(own)
+    own = own[: (4000 if tier == "quick" else len(own))]
+    rep.extra["repository_expressions_monitored"] = len(own)
+    texts += own
     cases = []
     for group in chunks(texts, 40):
         cases.append({"op": "evalmany", "scope": layered_scope(rng), "texts": group, "reps": 3})
@@ -228,6 +240,44 @@ def run(rep, tier, seed):
                 first[p] = v
                 if r.get("v") is not None:
                     rep.seen(("model", case["xml"][:80], p))
+    # ---- 4b. the repository's own example models: every invocable, three input contexts, each call made twice in
+    # random order and once on an evaluator built for it alone ------------------------------
+    from props import c20 as _c20
+
+    scases, smeta = [], []
+    for name, text, calls in _c20.corpus(rep):
+        order = [p for p in range(len(calls)) for _ in range(2 if tier == "quick" else 3)]
+        rng.shuffle(order)
+        scases.append({"op": "model", "xml": text, "calls": [calls[p] for p in order], "fresh": True})
+        smeta.append((name, order))
+    sresults, _ = runner.run_cases("dbg", scases, rep.workdir, label="shipped", case_timeout=120)
+    srep = 0
+    for case, (name, order), res in zip(scases, smeta, sresults):
+        _ok(res)
+        if "rs" not in res:
+            if "crash" in res or "timeout" in res:
+                rep.violation(crash_signature(res, "c13-shipped-model"), "run over shipped model %s died: %s" % (name, json.dumps(res)[:300]), {"variant": "dbg", "case": case})
+            continue
+        first = {}
+        for p, call, r in zip(order, case["calls"], res["rs"]):
+            rep.count()
+            if "panic" in r:
+                continue  # totality of the shipped models under these inputs is C12's subject
+            if "fresh_diff" in r:
+                rep.violation("model-result-depends-on-earlier-evaluations:shipped", "%s of %s gave %s after other evaluations of the same evaluator and %s on an evaluator built for this call alone" % (call[0], name, json.dumps(r["fresh_diff"]["after_other_calls"])[:150], json.dumps(r["fresh_diff"]["alone"])[:150]), {"variant": "dbg", "case": case})
+            if "input_changed" in r:
+                rep.violation("model-input-context-changed:shipped", "evaluate_invocable(%s) of %s changed the supplied input context: %s" % (call[0], name, json.dumps(r["input_changed"])[:300]), {"variant": "dbg", "case": case})
+            v = json.dumps(r.get("v"), sort_keys=True)
+            if p in first:
+                srep += 1
+                if first[p] != v:
+                    rep.violation("model-not-repeatable:shipped", "%s of %s with the same input gave %s first and %s later" % (call[0], name, first[p][:200], v[:200]), {"variant": "dbg", "case": case})
+            else:
+                first[p] = v
+                if r.get("v") is not None:
+                    rep.seen(("shipped", name, p))
+    rep.extra["shipped_models"] = len(scases)
+    rep.extra["shipped_model_repeated_calls_compared"] = srep
     rep.extra["model_repeated_calls_compared"] = mrep
     # ---- 5. decision-table evaluators over a caller's scope (recognised drawings) ----------
     import gdraw
